@@ -1,14 +1,14 @@
 #!/usr/bin/env python
 """C13, finding F65 (wttabled1-negative-value-three-digit-exponent-overflows-field): tie of the CANDIDATE FIX
-(corpus/c13_f65_candidate_fix.diff) to its Lean model `Bulk.tabled1LinesFixed` (Model/BulkTabFixed.lean; theorems in
-Props/C13ValuesFixed.lean).
+(corpus/c13_f65_candidate_fix.diff) to its Lean model `Bulk.tabled1LinesDefault` (Model/BulkTabDefault.lean; theorems in
+Props/C13ValuesTab.lean).
 
     /venv/bin/python corpus/c13_f65_candidate_check.py [--tree /tmp/wt_fix_c13] [--n 4000] [--seed 0]
 
 Without an existing --tree the script makes a scratch worktree of /repo (PYYETI_REPO), applies the diff, and removes the
 worktree at the end; /repo itself is never written.  Checks, per generated input (tid, card name, pairs of doubles):
 
-  exact-text   patched `wttabled1(f, tid, t, d)` == driver `tabled1fx` (the Lean model), byte for byte
+  exact-text   patched `wttabled1(f, tid, t, d)` == driver `tabled1d` (the Lean model), byte for byte
   roundtrip    `rdtabled1` of the patched text returns every value within half a unit of the last written digit
                (5e-10 relative; 5e-9 for a negative value with a three-digit exponent) - the property C13
   unchanged    where no value is negative with a three-digit exponent the patched text == the text of the UNPATCHED routine
@@ -127,7 +127,7 @@ def run(a):
         pb.wttabled1(f, tid, t, d, tablestr=name)
         text = f.getvalue()
         texts.append(text)
-        reqs.append("tabled1fx %s %d %s" % (name.encode().hex(), tid, " ".join("%d %d" % (bits(x), bits(y)) for x, y in pairs)))
+        reqs.append("tabled1d %s %d %s" % (name.encode().hex(), tid, " ".join("%d %d" % (bits(x), bits(y)) for x, y in pairs)))
         g = io.StringIO()
         ub.wttabled1(g, tid, t, d, tablestr=name)
         any_over = any(overflows(v) for p in pairs for v in p)
@@ -196,7 +196,7 @@ def run(a):
             if first != "$ " + kw["title"]:
                 bad.append({"check": "title", "text": f.getvalue()})
         texts.append(body)
-        reqs.append("tabled1fx %s %d %s" % ("TABLED1".encode().hex(), 9, " ".join("%d %d" % (bits(x), bits(y)) for x, y in zip(tt, dd))))
+        reqs.append("tabled1d %s %d %s" % ("TABLED1".encode().hex(), 9, " ".join("%d %d" % (bits(x), bits(y)) for x, y in zip(tt, dd))))
     # the Lean model
     p = subprocess.run(["lake", "env", "lean", "--run", os.path.join("Drivers", "C13.lean")], input="\n".join(reqs) + "\n",
                        capture_output=True, text=True, cwd=LEAN, timeout=3600)
@@ -215,7 +215,7 @@ def run(a):
         "finding": "F65 wttabled1-negative-value-three-digit-exponent-overflows-field",
         "candidate": "corpus/c13_f65_candidate_fix.diff",
         "repo_head": head,
-        "model": "PyYetiVerif.Bulk.tabled1LinesFixed (driver command tabled1fx)",
+        "model": "PyYetiVerif.Bulk.tabled1LinesDefault (driver command tabled1d)",
         "seed": a.seed,
         "cases": len(cases),
         "histogram": hist,
